@@ -22,6 +22,10 @@ fn lookup(cmd: &str) -> Option<CaseFn> {
         "c05" => cases::rtree::c05,
         "c06" => cases::rt::c06,
         "c09emit" => cases::rt::c09emit,
+        "c11w" => cases::sched::c11w,
+        "c11c" => cases::sched::c11c,
+        "c12x" => cases::tfb::c12x,
+        "c12t" => cases::tfb::c12t,
         "c07" => cases::zoom::c07,
         "c08" => cases::zoom::c08,
         _ => return None,
